@@ -267,7 +267,7 @@ func bitAnd(a, b Bit) Bit {
 	return Bit{K: BTop}
 }
 
-func bitOr(a, b Bit) Bit  { return bitNot(bitAnd(bitNot(a), bitNot(b))) }
+func bitOr(a, b Bit) Bit { return bitNot(bitAnd(bitNot(a), bitNot(b))) }
 func bitXor(a, b Bit) Bit {
 	if a.K == BZero {
 		return b
